@@ -47,9 +47,8 @@ fn hm_scalar_hash(b: &[u8], mut h: u64) -> u64 {
     h
 }
 fn hm_hash_class(n: usize) -> String {
-    // the scalar definition consumes 8-byte words; a vector tier that consumes w-byte blocks agrees only
-    // when fewer than 8 bytes remain after the last block
-    format!("differs/{}", if n < 16 { "n<16" } else if n % 32 >= 8 { "n%32>=8" } else if n % 16 >= 8 { "n%16>=8" } else { "tail<8" })
+    // vector tiers engage at n >= 16 (SSE4.2) / 32 (AVX2) / 64 (AVX-512)
+    format!("differs/{}", if n >= 16 { "n>=16" } else { "n<16" })
 }
 /// scalar definition of bmi2_string_ops::hash_string_scalar: byte at a time
 fn b2_scalar_hash(b: &[u8], mut h: u64) -> u64 {
@@ -175,8 +174,8 @@ fn main() {
         )));
         reg.add(Enum(text::utf8_spec("string::bmi2_string_ops::validate_utf8_bmi2", text::U8Kind::Valid, Box::new(|b| text::U8Out::Valid(b2::validate_utf8_bmi2(b))), false)));
         reg.add(Enum(text::utf8_spec("string::bmi2_string_ops::count_utf8_chars_bmi2", text::U8Kind::Count, Box::new(|b| text::U8Out::Count(b2::count_utf8_chars_bmi2(b).ok())), false)));
-        reg.add(Enum(text::utf8_spec("string::bmi2_string_ops::extract_utf8_chars_bmi2", text::U8Kind::Chars, Box::new(|b| text::U8Out::Chars(b2::get_global_bmi2_processor().extract_utf8_chars_bmi2(b).ok())), false)));
-        reg.add(Enum(text::utf8_spec("string::bmi2_string_ops::utf8_to_utf16_bmi2", text::U8Kind::Utf16, Box::new(|b| text::U8Out::Utf16(b2::get_global_bmi2_processor().utf8_to_utf16_bmi2(b).ok())), false)));
+        reg.add(Enum(text::utf8_spec("string::bmi2_string_ops::decode_utf8_char_bmi2/extract_utf8_chars_bmi2", text::U8Kind::Chars, Box::new(|b| text::U8Out::Chars(b2::get_global_bmi2_processor().extract_utf8_chars_bmi2(b).ok())), false)));
+        reg.add(Enum(text::utf8_spec("string::bmi2_string_ops::decode_utf8_char_bmi2/utf8_to_utf16_bmi2", text::U8Kind::Utf16, Box::new(|b| text::U8Out::Utf16(b2::get_global_bmi2_processor().utf8_to_utf16_bmi2(b).ok())), false)));
 
         // ---------------------------------------------------------------- string::bmi2_string_ops, other operations (mask: yes)
         reg.add(Enum(mem::strstr_spec(
